@@ -543,3 +543,110 @@ def matchify(fn: ast.AST) -> bool:
     if changed:
         ast.fix_missing_locations(fn)
     return changed
+
+
+# ---------------------------------------------------------------------------
+# scalar replacement of private NamedTuple / dataclass-like value groups
+
+
+def _nt_fields(cls_node: ast.ClassDef):
+    """field names of `class _X(NamedTuple): a: T; b: T = d` (None if the class is something else)"""
+    if not any(ast.unparse(b).split(".")[-1] == "NamedTuple" for b in cls_node.bases):
+        return None
+    out = []
+    for s in cls_node.body:
+        if isinstance(s, ast.AnnAssign) and isinstance(s.target, ast.Name):
+            out.append((s.target.id, s.value))
+    return out or None
+
+
+def scalar_replace(fn: ast.AST, module) -> bool:
+    """A local bound exactly once to `_Group(a, b, c)` (a private NamedTuple of this module) is dissolved:
+    `g.field` reads become the constructor argument, `x, y, z = g` becomes `x, y, z = (a, b, c)`.
+    In place, on a private copy; returns True when something changed."""
+    groups = {}
+    for name, node in module.top.items():
+        if isinstance(node, ast.ClassDef) and name.startswith("_") and not name.startswith("__"):
+            flds = _nt_fields(node)
+            if flds:
+                groups[name] = flds
+    if not groups:
+        return False
+    binds: dict[str, list] = {}
+    for n in ast.walk(fn):
+        if isinstance(n, ast.Assign):
+            for t in n.targets:
+                for x in ast.walk(t):
+                    if isinstance(x, ast.Name):
+                        binds.setdefault(x.id, []).append(n.value if t is x else None)
+        elif isinstance(n, (ast.AnnAssign, ast.AugAssign, ast.NamedExpr)) and isinstance(n.target, ast.Name):
+            binds.setdefault(n.target.id, []).append(getattr(n, "value", None) if not isinstance(n, ast.AugAssign) else None)
+        elif isinstance(n, (ast.For, ast.comprehension)):
+            for x in ast.walk(n.target):
+                if isinstance(x, ast.Name):
+                    binds.setdefault(x.id, []).append(None)
+        elif isinstance(n, ast.arg):
+            binds.setdefault(n.arg, []).append(None)
+    vals = {}
+    for nm, vs in binds.items():
+        if len(vs) == 1 and isinstance(vs[0], ast.Call) and isinstance(vs[0].func, ast.Name) and vs[0].func.id in groups \
+                and not any(isinstance(a, ast.Starred) for a in vs[0].args) and not any(k.arg is None for k in vs[0].keywords):
+            flds = groups[vs[0].func.id]
+            d = {}
+            for (fname, default), a in zip(flds, vs[0].args):
+                d[fname] = a
+            for k in vs[0].keywords:
+                d[k.arg] = k.value
+            for fname, default in flds:
+                if fname not in d and default is not None:
+                    d[fname] = default
+            if all(fname in d for fname, _ in flds):
+                vals[nm] = (d, [fname for fname, _ in flds])
+    if not vals:
+        return False
+    changed = False
+
+    def fld_name(g, f):
+        return f"{g}__{f}"
+
+    class T(ast.NodeTransformer):
+        def visit_Attribute(self, n):
+            nonlocal changed
+            self.generic_visit(n)
+            if isinstance(n.value, ast.Name) and n.value.id in vals and isinstance(n.ctx, ast.Load) and n.attr in vals[n.value.id][0]:
+                changed = True
+                return ast.copy_location(ast.Name(fld_name(n.value.id, n.attr), ast.Load()), n)
+            return n
+
+        def visit_Subscript(self, n):
+            nonlocal changed
+            self.generic_visit(n)
+            if isinstance(n.value, ast.Name) and n.value.id in vals and isinstance(n.ctx, ast.Load) and isinstance(n.slice, ast.Constant) \
+                    and isinstance(n.slice.value, int) and 0 <= n.slice.value < len(vals[n.value.id][1]):
+                changed = True
+                return ast.copy_location(ast.Name(fld_name(n.value.id, vals[n.value.id][1][n.slice.value]), ast.Load()), n)
+            return n
+
+        def visit_Assign(self, s):
+            nonlocal changed
+            self.generic_visit(s)
+            if isinstance(s.value, ast.Name) and s.value.id in vals and len(s.targets) == 1 and isinstance(s.targets[0], ast.Tuple) \
+                    and len(s.targets[0].elts) == len(vals[s.value.id][1]):
+                g = s.value.id
+                s.value = ast.copy_location(ast.Tuple([ast.Name(fld_name(g, k), ast.Load()) for k in vals[g][1]], ast.Load()), s.value)
+                changed = True
+                return s
+            # the defining assignment: one local per field, then the group built from those locals
+            if len(s.targets) == 1 and isinstance(s.targets[0], ast.Name) and s.targets[0].id in vals and isinstance(s.value, ast.Call):
+                g = s.targets[0].id
+                d, order = vals[g]
+                out = [ast.copy_location(ast.Assign([ast.Name(fld_name(g, k), ast.Store())], d[k]), s) for k in order]
+                s.value = ast.copy_location(ast.Call(s.value.func, [ast.Name(fld_name(g, k), ast.Load()) for k in order], []), s.value)
+                changed = True
+                return out + [s]
+            return s
+
+    T().visit(fn)
+    if changed:
+        ast.fix_missing_locations(fn)
+    return changed
